@@ -27,6 +27,12 @@ def gen(rng, tier):
 def evaluate(d, ant):
     """returns (algo_bad, spec_bad, stats)"""
     m = antgen.build(ant)
+    import topo
+    gb = topo.pulse_geometry_bad(m)
+    if gb:
+        # the formulation is evaluated from "nothing but the geometry": a pulse whose halves are not the
+        # segments that meet at it describes another structure
+        return None, 'pulse table does not describe the wires: ' + gb, dict(pairs=0, far=0, amb=0, worst_spec=0.0, worst_algo=0.0, N=len(m.pulses), kinds=[])
     m.compute_impedance_matrix()
     N = len(m.pulses)
     pairs = [(i, j) for i in range(N) for j in range(N)]
